@@ -116,4 +116,61 @@ theorem ctxRun_cons (e : CtxEnd) (es : List CtxEnd) :
     ctxRun (e :: es) = some (e.abort, e.cause.getD (.ctx e.abort)) := by
   simp [ctxRun, List.foldl, ctxStep, ctxRun_some]
 
+/-- A FAMILY of contexts (any forest: `below n k` = context `k` is `n` itself or derived from it, directly or not):
+an end at `n` reaches exactly the contexts below it (`cancelCtx.cancel` walks the children), each keeping an earlier
+end of its own. `σ k` = the state of context `k`. -/
+def famStep (below : Nat → Nat → Bool) (σ : Nat → CtxState) (ev : Nat × CtxEnd) : Nat → CtxState :=
+  fun k => if below ev.1 k then ctxStep (σ k) ev.2 else σ k
+
+def famRun (below : Nat → Nat → Bool) (σ : Nat → CtxState) (evs : List (Nat × CtxEnd)) : Nat → CtxState :=
+  evs.foldl (famStep below) σ
+
+theorem famRun_chain (below : Nat → Nat → Bool) (evs : List (Nat × CtxEnd)) (σ : Nat → CtxState) (k : Nat) :
+    famRun below σ evs k = ((evs.filter fun ev => below ev.1 k).map (·.2)).foldl ctxStep (σ k) := by
+  induction evs generalizing σ with
+  | nil => rfl
+  | cons ev evs ih =>
+    simp only [famRun, List.foldl_cons] at ih ⊢
+    rw [ih]
+    by_cases h : below ev.1 k = true
+    · simp [h, famStep]
+    · simp [h, famStep]
+
+/-! ### The handler's context ends with the call -/
+
+/-- Which context the handler of a call is given. -/
+inductive HandlerCtx where
+  /-- the caller's context with the call's values (`startStream`'s result): ends only when the CALLER's context ends -/
+  | caller
+  /-- the stream's context (`ss.Context()`: `context.WithCancel` of the former in `NewClientServerStream`, cancelled by
+  `Close`, which the handler goroutine calls when the handler has returned) -/
+  | stream
+  deriving DecidableEq, Repr
+
+namespace Wrap
+
+/-- pkg/wrap/wrap.go: `Invoke` runs `matched.Handler(w.srv, ss.Context(), dec, nil)` (`legacy`: it passed `ctx`);
+`NewStream` runs `matched.Handler(w.srv, ss)` whose handler asks `ss.Context()`; `adaptUnaryToStream` passes
+`stream.Context()`. -/
+def handlerCtxOf (legacy : Bool) : Shape → HandlerCtx
+  | .unary => if legacy then .caller else .stream
+  | _ => .stream
+
+/-- Has the handler's context ended in state `w` of the stream? -/
+def handlerCtxDone (h : HandlerCtx) (w : State) : Bool :=
+  match h with
+  | .caller => w.ctxErr.isSome
+  | .stream => w.closed.isSome || w.ctxErr.isSome
+
+end Wrap
+
+namespace GrpcRef
+
+/-- A gRPC server's handler context (grpc-go `processUnaryRPC` / `processStreamingRPC`: the stream's context is
+cancelled when the handler has returned and the status is written; and when the client cancels / its deadline
+passes). -/
+def handlerCtxDone (w : Wrap.State) : Bool := w.closed.isSome || w.ctxErr.isSome
+
+end GrpcRef
+
 end ScVerif.C13
